@@ -17,8 +17,32 @@ def sh(cmd, cwd=None, env=None, timeout=3600):
     p = subprocess.run(cmd, shell=True, cwd=cwd, env=env or ENV, stdout=subprocess.PIPE, stderr=subprocess.STDOUT, text=True, timeout=timeout)
     return p.returncode, p.stdout
 
+def infer(pid, n):
+    """package directory, destination file and -run regex from the demonstration file itself"""
+    import re
+    demo = "/tmp/seed/%s/out/demo%s_test.go" % (pid, n)
+    src = open(demo).read()
+    pkg = re.search(r"^package (\w+)", src, re.M).group(1)
+    pkg = pkg[:-5] if pkg.endswith("_test") else pkg
+    tests = re.findall(r"^func (Test\w+)\(", src, re.M)
+    return "%s/zz_seed_%s_%s_test.go" % (pkg, pid.lower(), n), pkg, "^(%s)$" % "|".join(tests)
+
+def affected(diff):
+    import re
+    pk = set(re.findall(r"^\+\+\+ b/(\w+)/", open(diff).read(), re.M))
+    out = set()
+    for p in pk:
+        out |= {"crypto": {"crypto", "common", "storage", "kernel", "p2p"}, "common": {"common", "storage", "kernel", "p2p"},
+                "storage": {"storage", "kernel"}, "p2p": {"p2p", "kernel"}, "kernel": {"kernel"},
+                "config": {"config", "common", "storage", "kernel", "p2p"}}.get(p, {"common", "crypto", "storage", "kernel", "p2p"})
+    return sorted(out)
+
 def main():
-    pid, n, dest, pkg, run = sys.argv[1:6]
+    pid, n = sys.argv[1:3]
+    if len(sys.argv) >= 6 and not sys.argv[3].startswith("--"):
+        dest, pkg, run = sys.argv[3:6]
+    else:
+        dest, pkg, run = infer(pid, n)
     tier = "quick"
     checks = [pid]
     if "--checks" in sys.argv:
@@ -40,9 +64,10 @@ def main():
         meta["builds"] = rc == 0
         if rc != 0:
             print("DOES NOT BUILD\n" + out[-2000:]); return 2
-        rc, out = sh("go1.26 test -count=1 -vet=off ./common ./crypto ./storage ./kernel ./p2p ./config ./logger ./util/...", cwd=B, timeout=3000)
+        pkgs = " ".join("./" + x for x in affected(diff))
+        rc, out = sh("go1.26 test -count=1 -vet=off %s" % pkgs, cwd=B, timeout=3000)
         meta["existing_tests_pass"] = rc == 0
-        meta["ran"].append("go1.26 test ./common ./crypto ./storage ./kernel ./p2p ./config ./logger ./util/... (with change): rc=%d" % rc)
+        meta["ran"].append("go1.26 test %s (packages touched by the change and their importers; with change): rc=%d" % (pkgs, rc))
         print("existing tests with change: rc=%d\n%s" % (rc, out[-600:]))
         if os.path.exists(demo):
             for d, label in ((A, "without"), (B, "with")):
